@@ -349,3 +349,70 @@ Example C07_example_abort_all :
   map (fun t => blocked (aag (fst cf) t)) [1; 2; 3] = [false; false; false] /\
   map (fun t => apc (snd cf t)) [0; 1; 2; 3] = [ADone; QDone; QDone; QDone] /\ aq (fst cf) = [] /\ ai (fst cf) = None.
 Proof. vm_compute. repeat split; reflexivity. Qed.
+
+(* ======== round p12a: the global invariant of abort_all left open in round w11c ========
+   Proofs/CondVarAbortGlobal.v, invariant GI over every schedule: the accounting invariant + roles + the internal lock (its holder is
+   inside a critical section) + W1: a BLOCKED waiter is at its suspension point and its entry is still pending (in queue_, in the
+   aborter's local list, or the one being aborted right now) + W2: between push and suspend the entry is pending or the wake-up token
+   is already there + for pika tasks: exceptions (+ undelivered reason) <= abort() calls. *)
+From Pika Require Import Model.CondVarAbortStuck Proofs.CondVarAbortGlobal.
+
+Theorem C07_abort_all_global_invariant : forall a isos waits sched,
+  GI a isos (fst (ab_run a isos waits sched)) (snd (ab_run a isos waits sched)).
+Proof. exact ab_gi. Qed.
+Print Assumptions C07_abort_all_global_invariant.
+
+(* abort_all has returned: every waiter is unblocked (running, or finished) UNLESS its entry is still in queue_ — pushed after
+   abort_all's last look at the queue —, in which case it is suspended in exactly that wait *)
+Theorem C07_abort_all_no_waiter_left_blocked : forall a isos waits sched,
+  let cf := ab_run a isos waits sched in
+  apc (snd cf a) = ADone ->
+  forall t, t <> a ->
+    (blocked (aag (fst cf) t) = true -> apc (snd cf t) = QSusp /\ In t (aq (fst cf))) /\
+    (blocked (aag (fst cf) t) = false \/ In t (aq (fst cf))).
+Proof. exact abort_all_no_waiter_left_blocked. Qed.
+Print Assumptions C07_abort_all_no_waiter_left_blocked.
+
+(* [ab_enabled] / [ab_stuck] (Model/CondVarAbortStuck.v): a thread that is not enabled only stutters *)
+Theorem C07_abort_disabled_only_stutters : forall a isos t g l,
+  ab_enabled a isos t g l = false -> ab_tstep a isos false t g l = (g, l).
+Proof. exact ab_disabled_stutter. Qed.
+Print Assumptions C07_abort_disabled_only_stutters.
+
+(* stuck, abort_all returned, queue_ empty: the internal lock is free, every waiter has FINISHED all its waits and is not blocked,
+   every entry ever queued was ended by exactly one abort() call or erased by its own waiter (spurious return), and a pika task saw
+   at most as many yield_aborted exceptions as abort() calls were aimed at it.  (Exactly one exception per wait holds on the runs
+   without spurious returns of C07_example_abort_all; with a spurious return the waiter erases its own entry and ends normally.) *)
+Theorem C07_abort_all_stuck_all_done : forall a isos waits sched,
+  let cf := ab_run a isos waits sched in
+  ab_stuck a isos cf -> apc (snd cf a) = ADone -> aq (fst cf) = [] ->
+  ai (fst cf) = None /\
+  forall t, t <> a ->
+    apc (snd cf t) = QDone /\ blocked (aag (fst cf) t) = false /\
+    pushes (fst cf) t = aborts (fst cf) t + selfrem (fst cf) t /\
+    (isos t = false -> thrown (fst cf) t <= aborts (fst cf) t).
+Proof. exact abort_all_stuck_all_done. Qed.
+Print Assumptions C07_abort_all_stuck_all_done.
+
+(* non-vacuity: the run of C07_example_abort_all ends in such a stuck state (stuck for ALL threads) ... *)
+Example C07_example_abort_all_stuck :
+  let cf := ab_run 0 (fun _ => true) ab_ex_waits (ab_ex_rr 6 ++ repeat (0, false) 14 ++ ab_ex_rr 8) in
+  ab_stuck 0 (fun _ => true) cf /\ apc (snd cf 0) = ADone /\ aq (fst cf) = [] /\
+  map (fun t => apc (snd cf t)) [1; 2; 3] = [QDone; QDone; QDone] /\ map (thrown (fst cf)) [1; 2; 3] = [1; 1; 1].
+Proof. exact ab_example_stuck. Qed.
+
+(* ... and the `unless` clause cannot be dropped: a waiter that queues up after abort_all returned blocks for ever *)
+Example C07_example_abort_all_late_waiter :
+  let cf := ab_run 0 (fun _ => true) (fun t => if Nat.eqb t 1 then 1 else 0) (repeat (0, false) 2 ++ repeat (1, false) 4) in
+  ab_stuck 0 (fun _ => true) cf /\ apc (snd cf 0) = ADone /\ blocked (aag (fst cf) 1) = true /\ apc (snd cf 1) = QSusp /\ aq (fst cf) = [1].
+Proof. exact ab_example_late_waiter. Qed.
+
+(* "the wait ended with the abort exception exactly once", for plain OS threads (no spurious return, no wake-up token: every
+   suspension blocks and is ended by an abort() whose reason is there when the suspension ends): at every moment the exceptions
+   seen plus the suspensions still ahead ([remaining]) add up to the waits of the thread; a finished OS waiter saw exactly one
+   exception per wait.  With C07_abort_all_stuck_all_done: stuck, abort_all returned, queue_ empty => thrown t = waits t. *)
+Theorem C07_abort_all_os_waiter_throws_every_wait : forall a isos waits sched t, t <> a -> isos t = true ->
+  let cf := ab_run a isos waits sched in
+  thrown (fst cf) t + remaining (snd cf t) = waits t /\ (apc (snd cf t) = QDone -> thrown (fst cf) t = waits t).
+Proof. exact os_waiter_throws_every_wait. Qed.
+Print Assumptions C07_abort_all_os_waiter_throws_every_wait.
